@@ -547,6 +547,10 @@ def gen_dtls(ch, spec):
             perm[i], perm[j] = perm[j], perm[i]
         cfg["profiles_" + side] = perm[:k]
     cfg["roles"] = ch.choice("cfg", ["auto", "auto", "A-server", "A-client"])
+    # handshake datagrams are never lost, but they may be slower than what follows them, and a side may
+    # start talking the instant it is connected (while the peer is still waiting for the last flight)
+    cfg["hs_extra_delay"] = ch.choice("cfg", [0.0, 0.0, 0.05, 0.5])
+    cfg["early"] = ch.choice("cfg", [None, "A", "B", "AB"])
     base = ch.choice("cfg", [0.002, 0.03, 0.4])
     p = Profile(base=base, jitter=ch.choice("cfg", [0.0, 0.01, 0.2]))
     p.corrupt = ch.choice("cfg", [0.0, 0.05, 0.2, 0.5])
@@ -600,7 +604,8 @@ class DtlsWorld(MediaBase):
         p = Profile.from_json(cfg["net"])
         clean = Profile(base=p.base, jitter=p.jitter)
         for key in (("A", "B"), ("B", "A")):
-            self.fabric.class_profiles[key] = {"dtls-hs": Profile(base=p.base), "srtp": p, "srtcp": p, "dtls-app": p}
+            self.fabric.class_profiles[key] = {"dtls-hs": Profile(base=p.base + cfg.get("hs_extra_delay", 0.0)),
+                                               "srtp": p, "srtcp": p, "dtls-app": p}
             self.fabric.profiles[key] = clean
         self.fabric.taps.append(self.on_wire)
         self.got = {"A": [], "B": []}
@@ -686,6 +691,16 @@ class DtlsWorld(MediaBase):
             pair.dtls[n]._register_rtp_sender(snd, RTCRtpSendParameters())
             pair.dtls[n]._register_data_receiver(dat)
             self.parties[n] = (rcv, snd, dat)
+        seq = {"A": 100, "B": 60000}
+        for n in (cfg.get("early") or ""):
+            def on_state(n=n):
+                if pair.dtls[n].state == "connected" and not getattr(self, "_early_" + n, False):
+                    setattr(self, "_early_" + n, True)
+                    self.probes["early_sends"] += 1
+                    for kind in ("data", "rtp"):
+                        self.loop.create_task(self.send_one(n, {"kind": kind, "size": 20, "early": True}, seq),
+                                              context=pair.ctx[n])
+            pair.dtls[n].on("statechange", on_state)
         await pair.connect(dtls_params=params)
         states = {n: pair.dtls[n].state for n in "AB"}
         common = [j for j in cfg["profiles_A"] if j in cfg["profiles_B"]]
@@ -697,12 +712,18 @@ class DtlsWorld(MediaBase):
         for n in "AB":
             if states[n] != want[n]:
                 why = "fingerprints" if common else "no-common-srtp-profile"
+                peer = "B" if n == "A" else "A"
+                if want[n] == "connected" and any(it["early"] and it["kind"] == "data" and it.get("fate") == "altered"
+                                                  for it in self.sent[peer]):
+                    # the known OpenSSL behaviour (F26), hit during the handshake
+                    self.violation("C04", self.DEAD_SIG, "side %s: handshake failed after an altered early application "
+                                   "record from %s arrived" % (n, peer))
+                    return
                 self.violation("C04", "state-%s-but-%s-expected:%s" % (states[n], want[n], why),
                                "side %s fingerprints=%r profiles A=%r B=%r roles=%s" % (
                                    n, cfg["fp_" + n], cfg["profiles_A"], cfg["profiles_B"], cfg["roles"]))
                 return
         # traffic
-        seq = {"A": 100, "B": 60000}
         for op in self.ops:
             if op["dt"]:
                 await asyncio.sleep(op["dt"])
@@ -717,7 +738,9 @@ class DtlsWorld(MediaBase):
         d = pair.dtls[n]
         self.counter += 1
         body = bytes(((self.counter * 31 + i * 7) & 0xFF) for i in range(op["size"]))
-        item = {"kind": op["kind"], "fate": None}
+        # early = sent the instant this side connected, possibly before the peer has: it may be lost
+        # (no keys there yet), it must never be delivered altered or by a transport that ends up failed
+        item = {"kind": op["kind"], "fate": None, "early": bool(op.get("early"))}
         try:
             if op["kind"] == "data":
                 payload = b"D%06d" % self.counter + body
@@ -798,8 +821,13 @@ class DtlsWorld(MediaBase):
             if states[peer] != "connected":
                 continue
             # n is the receiving side of what peer sent
-            want_rtp = [it["key"][1] for it in self.sent[peer] if it["kind"] == "rtp" and it["fate"] == "intact"]
-            want_data = [it["key"][1] for it in self.sent[peer] if it["kind"] == "data" and it["fate"] == "intact"]
+            early_ok = {it["key"][1] if it["kind"] != "rtp" else it["key"][1] for it in self.sent[peer]
+                        if it["early"] and it["fate"] == "intact" and not it.get("refused")}
+            got_keys = [g[1] for g in self.got[n] if g[0] in ("rtp", "data")]
+            want_rtp = [it["key"][1] for it in self.sent[peer] if it["kind"] == "rtp" and it["fate"] == "intact"
+                        and (not it["early"] or it["key"][1] in got_keys)]
+            want_data = [it["key"][1] for it in self.sent[peer] if it["kind"] == "data" and it["fate"] == "intact"
+                         and (not it["early"] or it["key"][1] in got_keys)]
             n_rtcp = sum(1 for it in self.sent[peer] if it["kind"] == "rtcp" and it["fate"] == "intact")
             self.altered[peer] = sum(1 for it in self.sent[peer] if it["fate"] == "altered")
             got_rtp = [g[1] for g in self.got[n] if g[0] == "rtp"]
